@@ -7,6 +7,11 @@ from .graph import Index, walk, strip
 from .rules_fsm import transitions, T, cval, short, consumed_char, _eff, flatidx
 
 OUT_REGIONS = ('BUF', 'BUFHI', 'UBUF')
+_KEEP_KINDS = frozenset(('copy', 'wr', 'rd', 'switch', 'fmt', 'bytecmp', 'cap_cmp', 'exit', 'enter', 'lib'))
+
+
+def _KEEP_TAB(e):
+    return e['k'] in _KEEP_KINDS
 
 
 def _texts(seq):
@@ -48,7 +53,7 @@ def c19(ctx):
         for t in ts:
             if not (t.frm.endswith('STATE_FORMAT_TEST_ARGS') and 'AFTER' not in t.frm):
                 continue
-            for seq in trace_paths(t.t['trace'], limit=50000):
+            for seq in trace_paths(t.t['trace'], limit=50000, keep=_KEEP_TAB):
                 acc = _labels(seq, '.access')
                 typ = _labels(seq, '.type')
                 siz = _labels(seq, '.data_size')
@@ -165,7 +170,7 @@ def _list_vs_dispatch(ctx):
                 outs = ex.step(s)
                 nxt = set()
                 for post, rv in outs:
-                    for seq in trace_paths(post.trace, limit=5000):
+                    for seq in trace_paths(post.trace, limit=5000, keep=_KEEP_TAB):
                         tx = _texts(seq)
                         if 'AT' in tx:
                             i = tx.index('AT')
@@ -442,7 +447,7 @@ def _match_step(ctx, ts):
     for t in ts:
         if not t.frm.endswith('UPDATE_COMMAND_STATE'):
             continue
-        for seq in trace_paths(t.t['trace'], limit=20000):
+        for seq in trace_paths(t.t['trace'], limit=20000, keep=_KEEP_TAB):
             sets = [e for e in seq if e['k'] == 'enter' and len(e.get('args', ())) == 3 and cval(e['args'][2]) in (0, 1, 2)
                     and any(x.get('kind') == 'BinaryOperator' and x.get('opcode') == '>>' for x in walk(m.prog.functions[e['name']]['_body']))]
             if not sets:
@@ -496,7 +501,7 @@ def c07(ctx):
                 if e['k'] == 'wr' and e['region'][0] in OUT_REGIONS and cval(e.get('val')) is not None and cval(e['val']) != 0 and e['fn'] != None:
                     if t.to == t.frm:
                         sep_out.add(chr(cval(e['val'])))
-            for seq in trace_paths(t.t['trace'], limit=50000):
+            for seq in trace_paths(t.t['trace'], limit=50000, keep=_KEEP_TAB):
                 typ = _labels(seq, '.type')
                 siz = _labels(seq, '.data_size')
                 if not typ:
@@ -526,7 +531,7 @@ def c07(ctx):
     for t in ts:
         if not t.frm.endswith('PARSE_WRITE_ARGS'):
             continue
-        for seq in trace_paths(t.t['trace'], limit=50000):
+        for seq in trace_paths(t.t['trace'], limit=50000, keep=_KEEP_TAB):
             typ = _labels(seq, '.type')
             siz = _labels(seq, '.data_size')
             if not typ:
